@@ -38,4 +38,6 @@ mut revert_d03 's.replace("\t\tif(!d)\n\t\t\treturn 0;\n", "")'
 mut split_loop_starts_at_1 's.replace("unsigned int d = 0;\n\t\t\t\twhile", "unsigned int d = 1;\n\t\t\t\twhile")'
 mut case3_mask_relaxed_wrong_bit 's.replace("cs->mask.store(mask | (uint16_t(1) << idx), std::memory_order_release);", "cs->mask.store(mask | (uint16_t(1) << (idx ^ 8)), std::memory_order_release);")'
 mut dtor_skips_value_destroy 's.replace("\t\t\t\t\tp->~T();\n", "")'
+mut dtor_destroys_value_twice 's.replace("\t\t\t\t\tp->~T();\n", "\t\t\t\t\tp->~T();\n\t\t\t\t\tp->~T();\n")'
+mut dtor_entry_dealloc_wrong_size 's.replace("\t\t\t\ttn = cn->parent;\n\t\t\t\tfrg::destruct(_allocator, cn);\n\t\t\t}else{", "\t\t\t\ttn = cn->parent;\n\t\t\t\t_allocator.deallocate(cn, sizeof(link_node));\n\t\t\t}else{")'
 git -C /repo worktree remove --force $W
